@@ -769,7 +769,14 @@ def enum_case(cid, rng, nvals):
     g_decl, g_inst = generics_decl(gen_state)
     lines = ["#[derive(derive_more::%s)]" % d]
     if enum_casing:
+        # (a second #[display(..)] attribute before or after must not make the first one forgotten)
+        other = "#[display(bound(u8: ::core::marker::Copy))]"
+        r2 = rng.random()
+        if r2 < 0.25:
+            lines.append(other)
         lines.append("#[display(rename_all = \"%s\")]" % enum_casing)
+        if 0.25 <= r2 < 0.5:
+            lines.append(other)
     lines.append("pub enum E%s {" % g_decl)
     for v in variants:
         for a in v["attrs"]:
